@@ -100,6 +100,7 @@ std::vector<std::string> pairFeatures(const ref::TA& A, const ref::TA& B) {
 // source of pairs: either all pairs of one domain with a bound on the total rule count, or the full product of two (trimmed) domains
 struct PairSrc { std::shared_ptr<dom::TADomain> D, DB; std::shared_ptr<dom::PairIndex> P; uint64_t total = 0;
   std::pair<ref::TA, ref::TA> get(uint64_t idx) const { if (P) { auto ij = P->get(idx); return {D->get(ij.first), D->get(ij.second)}; } return {D->get(idx / DB->size()), DB->get(idx % DB->size())}; } };
+static bool g_hugeNumbers = false;   // third numbering: sparse state numbers in the millions / beyond 2^40 (raw operands, no-simulation variants)
 static void runSrc(Env& env, const std::string& stage, PairSrc S, int n, bool numberings);
 static void runDomain(Env& env, const std::string& stage, int n, const dom::Alphabet& sig, int perSide, int totalMax, bool numberings) {
   PairSrc S; S.D = std::make_shared<dom::TADomain>(n, sig, perSide); S.P = std::make_shared<dom::PairIndex>(*S.D, totalMax); S.total = S.P->total;
@@ -126,14 +127,15 @@ static void runSrc(Env& env, const std::string& stage, PairSrc S, int n, bool nu
     if (dom::hasUseless(A) || dom::hasUseless(B)) c.count("class_useless_states");
     if (dom::hasBinary(A) && dom::hasBinary(B)) c.count("class_binary_both");
     if (c.wantSample() && !eA && !eB && A != B && A.rules.size() >= 2) c.sample("A: " + D->str(A) + " | B: " + D->str(B) + " | included=" + (expect ? "1" : "0"));
-    int numb = numberings ? 2 : 1;
+    int numb = numberings ? 2 : 1; if (g_hugeNumbers) numb = 3;
     for (int nv = 0; nv < numb; nv++) {
       ref::TA A2 = A, B2 = B;
+      if (nv == 2) { A2 = ref::mapStatesF(A, [](size_t q) { return (size_t)1000003 * q + 17; }); B2 = ref::mapStatesF(B, [](size_t q) { return ((size_t)1 << 40) + 3 * q; }); c.count("class_huge_sparse_state_numbers"); }
       if (nv == 1) { A2 = ref::shift(A, 5); B2 = ref::mapStatesF(B, [n](size_t q) { return (size_t)(n - 1) - q; }); }
       ExplicitTreeAut a = dom::build(A2), b = dom::build(B2, nv == 1);
       antichainCheck(a, b, c, "A: " + D->str(A2) + " | B: " + D->str(B2), A.rules.size() + B.rules.size());
       for (auto& v : VARIANTS) {
-        if (nv == 1 && v.sim) continue;   // sim variants always see prepared operands; renumbering is covered by nv==0 + C19
+        if (nv >= 1 && v.sim) continue;   // sim variants always see prepared operands; renumbering is covered by nv==0 + C19
         std::string what; g_internalViolation.clear(); int got = callIncl(a, b, v, &what);
         c.count("calls");
         if (!g_internalViolation.empty()) { c.viol(std::string("downward per-position antichain (internal)/") + v.name, "offered_state_not_covered_by_kept_antichain", {}, "A: " + D->str(A2) + " | B: " + D->str(B2) + " | variant=" + v.name + " (state numbers are those of the prepared operands)\n" + g_internalViolation + "\n--- A (timbuk)\n" + dom::timbuk(A2, D->sig, "A") + "--- B (timbuk)\n" + dom::timbuk(B2, D->sig, "B"), A.rules.size() + B.rules.size()); g_internalViolation.clear(); }
@@ -174,6 +176,7 @@ static void unimplemented(Env& env) {
 static Register r0("c01.unimpl", "C01", "unimplemented InclParam flag combinations throw", unimplemented);
 static Register r1("c01.n2s2k2", "C01", "pairs of TA(2,{a:0,b:0,g:2},<=2 rules per side), 8 variants, 2 numberings",
                    [](Env& e) { runDomain(e, "c01.n2s2k2", 2, dom::Sigma2(), 2, 4, true); });
+static Register rh("c01.huge.n2s2k2", "C01", "pairs of TA(2,{a:0,b:0,g:2},<=2 rules per side) with a third numbering: A on 1000003q+17, B on 2^40+3q (sparse, huge state numbers), no-simulation variants on the raw operands", [](Env& e) { g_hugeNumbers = true; runDomain(e, "c01.huge.n2s2k2", 2, dom::Sigma2(), 2, 4, true); });
 static Register r2("c01.n2s2k3", "C01", "pairs of TA(2,{a:0,b:0,g:2},<=3 rules per side), 8 variants, 2 numberings",
                    [](Env& e) { runDomain(e, "c01.n2s2k3", 2, dom::Sigma2(), 3, 6, true); });
 static Register r3("c01.n2s3k2", "C01", "pairs of TA(2,{a:0,b:0,f:1,g:2},<=2 rules per side), 8 variants, 2 numberings",
